@@ -99,6 +99,9 @@ def length(I, v):
 def isinstance_one(I, v, c):
     if not isinstance(c, type):
         raise Unsupported(f'isinstance against {c!r}')
+    if type(v).__name__ == 'NXGraph':
+        import networkx
+        return issubclass(networkx.Graph, c)
     if isinstance(v, PObj):
         return issubclass(v.cls, c)
     if isinstance(v, PList):
@@ -558,6 +561,8 @@ def lock_method(I, lk, name, args, kw):
 def builtin_method(I, recv, name, args, kw):
     if isinstance(recv, LockVal):
         return lock_method(I, recv, name, args, kw)
+    if hasattr(recv, 'pyvc_method'):
+        return recv.pyvc_method(I, name, args, kw)
     if isinstance(recv, PObj):
         return object_method(I, recv, name, args, kw)
     if isinstance(recv, PDict):
@@ -627,6 +632,9 @@ def dict_method(I, d, name, args, kw):
         return DictView(d, 'values')
     if name == 'copy':
         nd = PDict()
+        if type(d).__name__ == 'PDefaultDict':
+            from .nxmodel import PDefaultDict
+            nd = PDefaultDict(d.factory)
         for k, (g, v) in d.e.items():
             nd.e[k] = [g, v]
         return nd
@@ -949,6 +957,12 @@ def getitem(I, c, k):
         return I.any_op(f'{c.label}[...]')
     if isinstance(c, PDict):
         k = I._key(k, c)
+        if type(c).__name__ == 'PDefaultDict' and not I.dict_present(c, k):
+            if c.factory is None:
+                I.raise_(KeyError, k)
+            v = I.call(c.factory, [], {})
+            I.dict_set(c, k, v)
+            return v
         if I.ctx.guards and k in c.e and c.e[k][0] is not True:
             # read under a guard of an entry with symbolic presence: value is meaningful only where present
             return c.e[k][1]
